@@ -274,9 +274,24 @@ def resolve_clears(F):
                     cleared.add(f)
     for f in ("entry", "exit"):
         ok = f in cleared
+        why = "is not cleared"
+        if ok:
+            saves = [n for n in walk(rs["body"]) if n.get("k") == "MethodCall" and n["method"] in ("clone", "take", "drain") and (place_path(n["recv"]) or "").endswith(".instr_flag.%s" % f)]
+            saves += [n for n in walk(rs["body"]) if n.get("k") == "MethodCall" and n["method"] in ("clone", "take", "drain") and (place_path(n["recv"]) or "").endswith(".instr_flag.%s.instrs" % f)]
+            clears = [n for n in walk(rs["body"]) if n.get("k") == "MethodCall" and n["method"] == "clear" and (place_path(n["recv"]) or "").endswith(".instr_flag.%s.instrs" % f)]
+            if not saves:
+                ok, why = False, "is cleared but its saving copy was not found"
+            for S in saves:
+                good = False
+                for C in clears:
+                    l = lca(rs["body"], S, C)
+                    if l is not None and sp_before(S, C) and not conditional_ancestors(rs["body"], C, below=l):
+                        good = True
+                if not good:
+                    ok, why = False, "is cleared only under a further condition after being saved for lowering (it is lowered again by the next encode on the other branch)"
         r.ob(ok)
         if not ok:
-            r.violate("%s | func-%s" % (rs["path"], f), F.loc(rs), "function %s list is not cleared after being saved for lowering" % f)
+            r.violate("%s | func-%s" % (rs["path"], f), F.loc(rs), "function %s list %s" % (f, why))
     return r
 
 
